@@ -98,8 +98,11 @@ def check_topology(pp, dp, mp, fam, rng, res):
         for x in ranks:
             a = As[x]
             c = topo.get_coord(x)
-            if (a.broadcast_gradients(), a.broadcast_inverses()) != (True, False):
-                return res.violation(f'rank {x}: broadcast flags {(a.broadcast_gradients(), a.broadcast_inverses())}', case)
+            # only the inverse worker's model-parallel peers precondition, so every other data-parallel replica must be sent the
+            # gradient (flag True whenever dp > 1; with dp == 1 there is nobody to send to and either value is acceptable) and
+            # second-order data never travels
+            if (dp > 1 and not a.broadcast_gradients()) or a.broadcast_inverses():
+                return res.violation(f'rank {x}: broadcast flags {(a.broadcast_gradients(), a.broadcast_inverses())} (dp={dp})', case)
             if tuple(a.get_layers()) != tuple(work):
                 return res.violation(f'rank {x}: get_layers() {a.get_layers()} != its stage layers', case)
             for l in work:
